@@ -21,7 +21,7 @@ ASSUMPTIONS = ["invalid_disparity values are float32-representable (the map is f
 GATES = {
     "two_blocks_both_axes_with_tie_and_allnan_in_later_block": 1,
     "nan_invalid_disparity": 1, "more_than_256_disparity_samples": 1,
-    "max_type_with_ties": 1, "volume_is_a_window_of_a_larger_buffer": 3, "volume_in_the_matching_cost_layout": 3,
+    "max_type_with_ties": 1, "volume_with_infinite_costs": 3, "volume_is_a_window_of_a_larger_buffer": 3, "volume_in_the_matching_cost_layout": 3,
     "all_27_patterns_D3": 1,
     "pipeline_disparity_steps": 5,
     "pixels_judged": 100000,
@@ -178,6 +178,16 @@ def run_case(case, ctx):
             costs[150 % rows, 120 % cols, :] = 1.0
             costs[(150 % rows) - 1, 120 % cols, :] = np.nan
             lo[150 % rows, 120 % cols], hi[150 % rows, 120 % cols] = 0, nd - 1
+        with_inf = (case["j"] + rows + 2 * cols) % 5 == 2 and nd >= 2
+        if with_inf:
+            # a few computable costs are infinite (overflowing squared differences, a plugin's "forbidden" marker): the worst
+            # possible cost of the measure, on pixels that keep at least one finite cost
+            worst = np.inf if tm == "min" else -np.inf
+            sel = (rng.random(costs.shape) < 0.1) & ~np.isnan(costs)
+            keep = np.argmax(~np.isnan(costs), axis=2)
+            sel[np.arange(rows)[:, None], np.arange(cols)[None, :], keep] = False
+            costs[sel] = worst
+        ctx.gate("volume_with_infinite_costs", int(with_inf and bool(np.isinf(costs).any())))
         inv = INVALID[int(rng.integers(0, len(INVALID)))]
         inv_val = {"nan": np.nan, "inside": float(disps[nd // 2])}.get(inv, inv)
         conf = None
